@@ -101,6 +101,19 @@ structure CallD where
   sigKeys : List Nat
   kid : String
   kidDid : Option String
+  jwkShape : KeyShape := .other
+  keyShapes : List KeyShape := []
+
+/-- key shape as the harness names it: "<Go type>:<curve | length | nil>" -/
+def shapeOf (sh : String) : KeyShape :=
+  match sh.splitOn ":" with
+  | [ty, arg] =>
+    if ty == "*ecdsa.PublicKey" || ty == "ecdsa.PublicKey" || ty == "*ecdsa.PrivateKey" || ty == "jwk.ECDSAPublicKey" || ty == "jwk.ECDSAPrivateKey" then .ec arg
+    else if ty == "ed25519.PublicKey" then .ed arg.toNat!
+    else if ty == "*ed25519.PublicKey" then (if arg == "nil" then .edNil else .ed arg.toNat!)
+    else if ty == "jwk.OKPPublicKey" then .okp "Ed25519" arg.toNat!
+    else .other
+  | _ => .other
 
 def parseSub (j : Json) : Sub :=
   { name := jStr j "name", persistent := jBool j "persistent", wantTx := jBool j "wantTx", wantPayload := jBool j "wantPayload",
@@ -130,14 +143,24 @@ def absorb (d : DSt) (c : Json) : DSt :=
 def callOf (c : Json) : CallD :=
   let jws := jObj c "jws"
   let tx := parseOf jws (c.getObjValAs? String "in").toOption
-  { tx := tx, payload := (c.getObjValAs? Nat "pid").toOption, sigJwk := jBool c "sigJwk", sigKeys := jNats c "sigKeys",
-    kid := (match tx with | .ok t => t.kid | _ => ""), kidDid := (c.getObjValAs? String "kidDid").toOption }
+  -- `jws.Verify` is a parameter: the harness hands over the family-only verdicts (digest by the header algorithm on whatever
+  -- curve the key has) and the curve of every key; the model applies AlgorithmFitsKey itself. Ops recorded before that
+  -- (corpus) only carry the RFC 7518 verdicts: every key there is P-256.
+  let lax := !(jStrs c "keyCrvs").isEmpty   -- (re-marshalled corpus ops carry the new members as null / empty)
+  let crv := jStr c "jwkCrv"
+  { tx := tx, payload := (c.getObjValAs? Nat "pid").toOption,
+    sigJwk := if lax then jBool c "laxJwk" else jBool c "sigJwk", sigKeys := if lax then jNats c "laxKeys" else jNats c "sigKeys",
+    kid := (match tx with | .ok t => t.kid | _ => ""), kidDid := (c.getObjValAs? String "kidDid").toOption,
+    jwkShape := if crv == "" then .other else .ec crv,
+    keyShapes := (jStrs c "keyCrvs").map KeyShape.ec }
 
 def envOf (d : DSt) (cs : List CallD) : Env :=
   let verdict (t : Tx) : Option CallD := cs.find? (fun c => match c.tx with | .ok t' => t'.ref == t.ref | _ => false)
   { sha := fun p => (alGet d.shas p).getD 0
     sigJwk := fun t => match verdict t with | some c => c.sigJwk | none => false
     sigKey := fun t k => match verdict t with | some c => c.sigKeys.contains k | none => false
+    jwkShape := fun t => match verdict t with | some c => c.jwkShape | none => .other
+    keyShape := fun k => match cs.findSome? (fun c => c.keyShapes[k]?) with | some sh => sh | none => .ec "P-256"
     kidDid := fun kid => match cs.find? (fun c => c.kid == kid) with | some c => c.kidDid | none => none
     resolve := fun did src => match d.docs.find? (fun e => e.1.1 == did && e.1.2 == src) with | some e => e.2 | none => .notFound }
 
@@ -201,6 +224,7 @@ def step (d : DSt) (j : Json) : DSt × List String :=
         | .ok t =>
           let names := sortStrs (["alg", "crit", "cty", (if h.hasJwk then "jwk" else "kid")] ++ h.priv.map (·.1))
           (d, [s!"{pre} | sign=ok alg={t.alg} ph={short t.payloadHash} cty={quote t.cty} jwk={t.jwk} kid={quote t.kid} sigt={t.sigt} ver={t.ver} prevs=[{String.intercalate "," (t.prevs.map short)}] pal={t.pal.length} lc={t.clock} names={String.intercalate "," names} crit={String.intercalate "," Create.critHeaders} again={resCls (Create.signPrecheck false true)}"])
+  | "algfit" => (d, [s!"fits={algorithmFitsKey (jStr j "alg") (shapeOf (jStr j "shape"))}"])
   | "hashlist" =>
     let input := bytesOfB64 (jStr (jObj j "call") "in")
     let parsed := Shelf.parseHashList input
